@@ -278,10 +278,13 @@ func (a *Adapter) clearOrbiterBalance(ctx context.Context, denom string) error {
 		return nil
 	}
 
-	return a.bankKeeper.SendCoinsFromModuleToModule(
+	// NOTE: the coins are sent to the address and not from module to module: the latter
+	// panics when the account stored at the dust collector address is not a module account,
+	// which anyone can cause by having a fee paid to that address before its first use.
+	return a.bankKeeper.SendCoins(
 		ctx,
-		core.ModuleName,
-		core.DustCollectorName,
+		core.ModuleAddress,
+		core.DustCollectorAddress,
 		sdk.NewCoins(coin),
 	)
 }
